@@ -73,7 +73,7 @@ class Spec(DiffSpec):
             yield {"seed": s, "shipped": name, "max_episode_length": mel, "n_ops": mel + 4, "monitors": ["c20"], "io": dict(IO_OFF), "first_reset_seed": s % 1000, "op_mix": {"step": 0.93, "reset": 0.03, "fault": 0.04}, "record_state": True}
         for i in range(n):
             s = base_seed * 1000003 + 200000000 + i
-            prof = {"n_green": (0, 2), "n_red": (0, 2), "tight_links": 0.1, "avoid": ["listen_on_ports", "routing_loop"], "initial_power_off": 0.15, "extra_nic": 0.3}
+            prof = {"n_green": (0, 2), "n_red": (0, 2), "tight_links": 0.1, "avoid": ["listen_on_ports"], "initial_power_off": 0.15, "extra_nic": 0.3}
             yield {"seed": s, "profile": prof, "n_ops": 22, "monitors": ["c20"], "first_reset_seed": s % 1000, "op_mix": {"step": 0.85, "reset": 0.06, "fault": 0.09}, "record_state": True}
 
 
